@@ -2,3 +2,5 @@ import HopModel.Props.C14
 import HopModel.Props.C20
 import HopModel.Props.C03
 import HopModel.Props.C15
+import HopModel.Props.C01
+import HopModel.Props.C02
